@@ -13,7 +13,10 @@ func init() {
 }
 
 // prefixLoop describes `for l := …; l ⋈ len(b); l++ { dec.Transform(dst, b[:l], …) }`.
+// prefixCap: the largest prefix length a constant comparison in the loop condition lets through (0 = none)
 type prefixLoop struct {
+	capMax   int64
+	capCmp   string
 	call      ssa.Instruction
 	inclusive bool
 	found     bool
@@ -64,6 +67,25 @@ func findPrefixLoops(fn *ssa.Function) []prefixLoop {
 					pl.inclusive = op == token.LEQ
 				}
 			}
+			// a constant cap on the prefix length: l < K or l <= K as a branch condition
+			if k, ok := constInt(other); ok && (op == token.LSS || op == token.LEQ) {
+				isBranch := false
+				for _, rr := range referrers(bo) {
+					if _, ok := rr.(*ssa.If); ok {
+						isBranch = true
+					}
+				}
+				if isBranch {
+					m := k
+					if op == token.LSS {
+						m = k - 1
+					}
+					if pl.capCmp == "" || m < pl.capMax {
+						pl.capMax = m
+						pl.capCmp = fmt.Sprintf("l %s %d", op.String(), k)
+					}
+				}
+			}
 		}
 		if v, ok := in.(ssa.Value); ok {
 			for _, r := range referrers(v) {
@@ -91,6 +113,10 @@ func checkPrefixLoop(c *Ctx, p *Prog, fn *ssa.Function, rule string) {
 			continue
 		}
 		c.Check(pl.inclusive, rule, key, p.pos(pl.call.Pos()), "prefix length bound is `"+pl.cmp+"`; it must include len(b), or a character that ends the input never decodes")
+		if pl.capCmp != "" {
+			// the longest encoded character among the registered charsets is 4 bytes (UTF-8, GB18030)
+			c.Check(pl.capMax >= 4, rule, key+":cap", p.pos(pl.call.Pos()), fmt.Sprintf("the loop also stops at `%s` (prefixes up to %d bytes are tried); characters of UTF-8 and GB18030 are up to 4 bytes long", pl.capCmp, pl.capMax))
+		}
 	}
 }
 
@@ -99,6 +125,10 @@ func checkC11(c *Ctx) {
 	c.Rule("C11-R2", "bytes consumed after a decode = the decoder's nSrc result")
 	c.Rule("C11-R3", "bracketed paste: enable and disable strings and both bracket keys are set together; the matcher maps them to paste start/end events")
 	c.Rule("C11-R4", "the collect loop calls the rune and focus parsers unconditionally; the focus parser maps I/O to in/out")
+	c.Rule("C11-R5", "an input chunk queued for the parser goroutine owns its backing array (allocated per chunk)")
+	c.Rule("C11-R6", "raw input bytes are interpreted only by the locale's decoder: no unicode/utf8 function is applied to the undecoded input (the locale may be a legacy charset)")
+	c.Expect("C11-R5", 1)
+	c.Expect("C11-R6", 1)
 	c.Expect("C11-R1", 1)
 	c.Expect("C11-R2", 1)
 	c.Expect("C11-R3", 4)
@@ -114,6 +144,8 @@ func checkC11(c *Ctx) {
 		return
 	}
 	checkPrefixLoop(c, p, pr, "C11-R1")
+	checkChunkOwnership(c, p, "C11-R5")
+	checkRawInputNotUTF8(c, p, pr, "C11-R6")
 	// R2: the consumption loop counts down from nSrc
 	for _, pl := range findPrefixLoops(pr) {
 		ok := false
@@ -272,4 +304,40 @@ func isParserSig(f *ssa.Function) bool {
 	}
 	return typeName(sig.Params().At(0).Type()) == "*bytes.Buffer" &&
 		sig.Results().At(0).Type().String() == "bool" && sig.Results().At(1).Type().String() == "bool"
+}
+
+// checkRawInputNotUTF8: in the rune parser no function of unicode/utf8 may
+// receive (a reslice of) the undecoded input; only the decoder's output may be
+// interpreted as UTF-8.  A charset test of the screen guarding the call would
+// make it legitimate; none exists today, so any such call is reported.
+func checkRawInputNotUTF8(c *Ctx, p *Prog, fn *ssa.Function, rule string) {
+	var input ssa.Value
+	eachInstr(fn, func(in ssa.Instruction) {
+		if call, ok := in.(*ssa.Call); ok && calleeName(&call.Call) == "(*bytes.Buffer).Bytes" && input == nil {
+			input = call
+		}
+	})
+	if input == nil {
+		c.Undecided(rule, fn.Name()+":raw-input", p.pos(fn.Pos()), "input buffer not found")
+		return
+	}
+	bad := ""
+	n := 0
+	eachInstr(fn, func(in ssa.Instruction) {
+		cc := callCommon(in)
+		if cc == nil {
+			return
+		}
+		callee := staticCallee(cc)
+		if callee == nil || callee.Pkg == nil || callee.Pkg.Pkg.Path() != "unicode/utf8" {
+			return
+		}
+		n++
+		for _, a := range cc.Args {
+			if sliceRoot(a) == input {
+				bad += fmt.Sprintf("%s applied to the undecoded input at %s; ", callee.Name(), p.pos(in.Pos()))
+			}
+		}
+	})
+	c.Check(bad == "", rule, fn.Name()+":utf8-only-on-decoder-output", p.pos(fn.Pos()), fmt.Sprintf("%d unicode/utf8 call(s), none on the raw input %s", n, bad))
 }
